@@ -726,6 +726,9 @@ class Gen:
             cps = o.change_points()
             if cps:
                 op['idx'].append(r.choice(cps))
+        elif q == 'encode' and r.random() < 0.6:
+            op['args'] = r.choice([['utf-8'], ['utf-16'], ['latin-1', 'replace'], ['ascii', 'ignore'], ['ascii', 'xmlcharrefreplace'],
+                                   ['utf-8', 'strict']])
         elif q in ('eq', 'contains'):
             op['o'] = self.operand(world, s)
         elif q in ('count', 'find', 'rfind', 'endswith', 'index', 'rindex'):
